@@ -361,7 +361,11 @@ impl<K, V> TreeBin<K, V> {
         loop {
             #[cfg(feature = "verif")]
             crate::verif::hit(crate::verif::RAW_ATOMIC, crate::verif::addr(&self.lock_state), 0);
-            state = self.lock_state.load(Ordering::Acquire);
+            // NOTE: this load must be `SeqCst` (Java's `lockState` is volatile): publishing our
+            // handle in `waiter` and re-reading `lock_state` races with the last reader doing
+            // `fetch_add(-READER)` and then reading `waiter`. With a weaker load both sides may
+            // miss each other's write, and we would park with nobody left to wake us.
+            state = self.lock_state.load(Ordering::SeqCst);
             if state & !WAITER == 0 {
                 // there are no writing or reading threads
                 #[cfg(feature = "verif")]
